@@ -86,7 +86,7 @@ func refKey(p []byte) [20]byte {
 // C08Sub is one subscribe/unsubscribe call.
 type C08Sub struct {
 	Unsub  bool `json:"unsub"`
-	Value  int  `json:"value"`  // index into subUniverse
+	Value  int  `json:"value"`  // index into c08Universe (subUniverse plus long raw values)
 	Hashed bool `json:"hashed"` // give the 20-byte hash instead of the raw data
 }
 
@@ -105,7 +105,7 @@ func c08Run(sc *C08Scenario) (*nodeViolation, map[string]bool) {
 	node := NewNode(stepConfig(), verifkit.NewMemStore(true), nil, nil)
 	model := map[[20]byte]int{}
 	for _, s := range sc.Subs {
-		v := subUniverse[s.Value%len(subUniverse)]
+		v := c08Universe[s.Value%len(c08Universe)]
 		key := refKey(v)
 		arg := v
 		if s.Hashed {
@@ -216,6 +216,35 @@ func c08Run(sc *C08Scenario) (*nodeViolation, map[string]bool) {
 	return nil, flags
 }
 
+// c08Universe is subUniverse plus raw values at the push-size boundaries (PUSHDATA1/2/4, the
+// 520-byte script element size, beyond 64 KiB).
+var c08Universe = func() [][]byte {
+	out := append([][]byte{}, subUniverse...)
+	for k, n := range []int{76, 255, 256, 520, 521, 3000, 66000} {
+		v := make([]byte, n)
+		for i := range v {
+			v[i] = byte(i*7 + k*13 + 1)
+		}
+		out = append(out, v)
+	}
+	return out
+}()
+
+// c08Push encodes a data push with the opcode class asked for (0 shortest, 1 PUSHDATA1, 2
+// PUSHDATA2, 3 PUSHDATA4), falling back to the next class that can express the length.
+func c08Push(d []byte, class int) []byte {
+	n := len(d)
+	switch {
+	case class <= 0 && n <= 75:
+		return append([]byte{byte(n)}, d...)
+	case class <= 1 && n <= 0xff:
+		return append([]byte{0x4c, byte(n)}, d...)
+	case class <= 2 && n <= 0xffff:
+		return append([]byte{0x4d, byte(n), byte(n >> 8)}, d...)
+	}
+	return append([]byte{0x4e, byte(n), byte(n >> 8), byte(n >> 16), byte(n >> 24)}, d...)
+}
+
 func genC08Script(t *rapid.T, label string, flags map[string]bool) []byte {
 	var s []byte
 	n := rapid.IntRange(0, 6).Draw(t, label+"-n")
@@ -228,17 +257,17 @@ func genC08Script(t *rapid.T, label string, flags map[string]bool) []byte {
 				return rapid.SampledFrom([][]byte{make([]byte, 20), {0xff, 0xff, 0xff, 0xff, 0xff, 0xff, 0xff, 0xff, 0xff, 0xff, 0xff, 0xff, 0xff, 0xff, 0xff, 0xff, 0xff, 0xff, 0xff, 0xff}}).Draw(t, label+"-deg")
 			case 0, 1:
 				flags["universe-element"] = true
-				return subUniverse[rapid.IntRange(0, len(subUniverse)-1).Draw(t, label+"-u")]
+				return c08Universe[rapid.IntRange(0, len(c08Universe)-1).Draw(t, label+"-u")]
 			case 2:
 				flags["universe-element"] = true
-				k := refHash160(subUniverse[rapid.IntRange(3, 5).Draw(t, label+"-uh")])
+				k := refHash160(c08Universe[rapid.IntRange(3, len(c08Universe)-1).Draw(t, label+"-uh")])
 				return k[:]
 			case 3:
-				v := append([]byte{}, subUniverse[rapid.IntRange(0, len(subUniverse)-1).Draw(t, label+"-nm")]...)
+				v := append([]byte{}, c08Universe[rapid.IntRange(0, len(c08Universe)-1).Draw(t, label+"-nm")]...)
 				v[rapid.IntRange(0, len(v)-1).Draw(t, label+"-flip")] ^= 0x01
 				return v
 			case 4:
-				v := subUniverse[rapid.IntRange(0, 2).Draw(t, label+"-tr")]
+				v := c08Universe[rapid.IntRange(0, 2).Draw(t, label+"-tr")]
 				return v[:19]
 			default:
 				return rapid.SliceOfN(rapid.Byte(), 1, 80).Draw(t, label+"-rnd")
@@ -248,23 +277,15 @@ func genC08Script(t *rapid.T, label string, flags map[string]bool) []byte {
 		case 0, 1, 2:
 			d := data()
 			if len(d) > 75 {
-				s = append(s, 0x4c, byte(len(d)))
-			} else {
-				s = append(s, byte(len(d)))
+				flags["long-push"] = true
 			}
-			s = append(s, d...)
+			s = append(s, c08Push(d, 0)...)
 		case 3:
-			d := data()
-			s = append(s, 0x4c, byte(len(d)))
-			s = append(s, d...)
+			s = append(s, c08Push(data(), 1)...)
 		case 4:
-			d := data()
-			s = append(s, 0x4d, byte(len(d)), byte(len(d)>>8))
-			s = append(s, d...)
+			s = append(s, c08Push(data(), 2)...)
 		case 5:
-			d := data()
-			s = append(s, 0x4e, byte(len(d)), byte(len(d)>>8), 0, 0)
-			s = append(s, d...)
+			s = append(s, c08Push(data(), 3)...)
 		case 6:
 			// non-push opcode
 			op := rapid.SampledFrom([]byte{0x61, 0x6a, 0x76, 0xa9, 0x88, 0xac, 0x87, 0xba, 0xff, 0x50, 0x62}).Draw(t, label+"-op")
@@ -276,13 +297,20 @@ func genC08Script(t *rapid.T, label string, flags map[string]bool) []byte {
 			// lying length: claims more than what follows (possibly swallowing later pushes)
 			d := data()
 			claim := len(d) + rapid.IntRange(1, 300).Draw(t, label+"-lie")
-			switch rapid.IntRange(0, 2).Draw(t, label+"-liekind") {
+			kind := rapid.IntRange(0, 2).Draw(t, label+"-liekind")
+			if claim > 0xff && kind == 0 {
+				kind = 1
+			}
+			if claim > 0xffff {
+				kind = 2
+			}
+			switch kind {
 			case 0:
 				s = append(s, 0x4c, byte(claim))
 			case 1:
 				s = append(s, 0x4d, byte(claim), byte(claim>>8))
 			default:
-				s = append(s, 0x4e, byte(claim), byte(claim>>8), 0, 0)
+				s = append(s, 0x4e, byte(claim), byte(claim>>8), byte(claim>>16), 0)
 			}
 			s = append(s, d...)
 			flags["malformed"] = true
@@ -302,7 +330,7 @@ func genC08(t *rapid.T) (*C08Scenario, map[string]bool) {
 	sc := &C08Scenario{Contracts: rapid.IntRange(0, 2).Draw(t, "contracts"),
 		Action: rapid.SampledFrom([]string{"", "", "", "formation", "creation", "transfer"}).Draw(t, "action")}
 	for i, n := 0, rapid.IntRange(0, 8).Draw(t, "nsubs"); i < n; i++ {
-		sc.Subs = append(sc.Subs, C08Sub{Unsub: rapid.IntRange(0, 2).Draw(t, "unsub") == 0, Value: rapid.IntRange(0, len(subUniverse)-1).Draw(t, "value"), Hashed: rapid.Bool().Draw(t, "hashed")})
+		sc.Subs = append(sc.Subs, C08Sub{Unsub: rapid.IntRange(0, 2).Draw(t, "unsub") == 0, Value: rapid.IntRange(0, len(c08Universe)-1).Draw(t, "value"), Hashed: rapid.Bool().Draw(t, "hashed")})
 	}
 	for i, n := 0, rapid.IntRange(1, 3).Draw(t, "nin"); i < n; i++ {
 		sc.Inputs = append(sc.Inputs, hex.EncodeToString(genC08Script(t, "in", gf)))
@@ -313,7 +341,7 @@ func genC08(t *rapid.T) (*C08Scenario, map[string]bool) {
 	return sc, gf
 }
 
-const c08Rule = "transactions whose input/output scripts are built from a grammar of direct pushes, PUSHDATA1/2/4 (honest and lying lengths), non-push opcodes, small-integer opcodes and truncated tails, carrying subscribed values, their HASH160s, near misses and random data; subscription histories of subscribe/unsubscribe in raw or hashed form with repeats; contract subscription on/off with formation/creation/other actions; oracle: independent push parser + multiset model; non-trivial = a script has a non-push opcode or malformed tail and a universe element; distinct by scenario hash"
+const c08Rule = "transactions whose input/output scripts are built from a grammar of direct pushes, PUSHDATA1/2/4 (honest and lying lengths), non-push opcodes, small-integer opcodes and truncated tails, carrying subscribed values (20-byte and raw, raw lengths 33..66000 incl. the 75/255/520/65535 push-size boundaries), their HASH160s, near misses and random data; subscription histories of subscribe/unsubscribe in raw or hashed form with repeats; contract subscription on/off with formation/creation/other actions; oracle: independent push parser + multiset model; non-trivial = a script has a non-push opcode or malformed tail and a universe element; distinct by scenario hash"
 
 func TestC08Filter(t *testing.T) {
 	rep := verifkit.NewReport("C08", "TestC08Filter", c08Rule)
